@@ -129,4 +129,26 @@ static int spec_hex_value(unsigned c)
   if (c >= 'a' && c <= 'f') return (int)(c - 'a') + 10;
   return -1;
 }
+
+/* whiteSpace facet, XML Schema Part 2 4.3.6:
+ *  replace : "All occurrences of #x9 (tab), #xA (line feed) and #xD (carriage return) are replaced with #x20 (space)"
+ *  collapse: "After the processing implied by replace, contiguous sequences of #x20's are collapsed to a single #x20,
+ *             and leading and trailing #x20's are removed."
+ * in[0..n) -> out[0..return value) */
+static size_t spec_ws_replace(const uint16_t *in, size_t n, uint16_t *out)
+{
+  for (size_t i = 0; i < n; i++) out[i] = (in[i] == 0x9 || in[i] == 0xA || in[i] == 0xD) ? 0x20 : in[i];
+  return n;
+}
+static size_t spec_ws_collapse(const uint16_t *in, size_t n, uint16_t *out)
+{
+  size_t m = 0;
+  int pending = 0;                      /* a run of spaces seen after some non-space output */
+  for (size_t i = 0; i < n; i++) {
+    uint16_t c = (in[i] == 0x9 || in[i] == 0xA || in[i] == 0xD) ? 0x20 : in[i];
+    if (c == 0x20) { if (m > 0) pending = 1; }
+    else { if (pending) out[m++] = 0x20; pending = 0; out[m++] = c; }
+  }
+  return m;
+}
 #endif
